@@ -163,7 +163,11 @@ func (w *worker) runSmart() {
 		}
 		var modesMu sync.Mutex
 		evalModes := map[rebalancing.Mode]bool{}
-		det := rebalancing.NewWorkloadDetector(rebalancing.WithMinSampleSize(5), rebalancing.WithWindowSize(time.Minute))
+		detOpts := []rebalancing.DetectorOption{rebalancing.WithMinSampleSize(5), rebalancing.WithWindowSize(time.Minute)}
+		if w.c.DetCap > 0 {
+			detOpts = append(detOpts, rebalancing.WithCapacity(w.c.DetCap)) // the bounded history wraps after this many observations
+		}
+		det := rebalancing.NewWorkloadDetector(detOpts...)
 		cons := rebalancing.DefaultSafetyConstraints()
 		cons.MinConfidence = float64(w.c.MinConf) / 100
 		if w.c.Rotate {
